@@ -5,6 +5,8 @@ mod ju;
 mod probe;
 mod props;
 mod rt;
+mod scen;
+mod schemes;
 
 use rt::{Ctx, Tier};
 
